@@ -593,9 +593,11 @@ def run_interp_case(case):
     kp = numpy.array([knots[i][1] for i in order], dtype=int)
     kg = numpy.array([knots[i][2] * scale for i in order], dtype=float)
     if case["mapcls"] == "Standard":
-        gmap = _imp("pybrops.popgen.gmap.StandardGeneticMap", "StandardGeneticMap")(kc, kp, kg, vrnt_genpos_units=units)
+        gmap = _imp("pybrops.popgen.gmap.StandardGeneticMap", "StandardGeneticMap")(kc, kp, kg, vrnt_genpos_units=units,
+                                                                                     auto_group=bool(case.get("auto_group", True)))
     else:
-        gmap = _imp("pybrops.popgen.gmap.ExtendedGeneticMap", "ExtendedGeneticMap")(kc, kp, kp.copy(), kg, vrnt_genpos_units=units)
+        gmap = _imp("pybrops.popgen.gmap.ExtendedGeneticMap", "ExtendedGeneticMap")(kc, kp, kp.copy(), kg, vrnt_genpos_units=units,
+                                                                                     auto_group=bool(case.get("auto_group", True)))
     fn = _imp("pybrops.popgen.gmap.%sMapFunction" % case["mapfn"], "%sMapFunction" % case["mapfn"])()
     p = len(markers)
     mc = numpy.array([m[0] for m in markers], dtype=int)
@@ -1054,7 +1056,7 @@ def gen_interp_cases(rnd, tier):
         yield dict(kind="interp", mapcls=rnd.choice(["Standard", "Extended"]), mapfn=rnd.choice(["Haldane", "Haldane", "Kosambi"]),
                    matcls=rnd.choice(["DensePhasedGenotypeMatrix", "DenseGenotypeMatrix"]), units=rnd.choice(["M", "M", "cM", "Morgans", "centiMorgans"]),
                    knots=[list(k) for k in knots], markers=[list(m) for m in markers], seed=rnd.randrange(10 ** 6),
-                   rep=rnd.choice(["lo", "mid", "hi"]))
+                   rep=rnd.choice(["lo", "mid", "hi"]), auto_group=rnd.random() < 0.7)      # False: the map keeps the (shuffled) file order
 
 
 U_INTERP = "ring[interp_xoprob: mapfn(distance to previous marker), 0.5 at chromosome starts]"
